@@ -137,6 +137,21 @@ def check_case(ctx, fails, case, tr, small_exprs, small_refs):
                 bad += 1
         if bad:
             ctx.broken_ties.append('correspondence: float evaluation of the translated TMLE update lines differs from the probe on %d rows' % bad)
+    # (5b) the translated unit-interval map reproduces the outcome column the estimator works on
+    if tr and not binary and 'tmle_unit_bounds' in tr:
+        raw = np.asarray(df['Y'], dtype=float)[np.asarray(tm.df['index'])] if 'index' in tm.df.columns else None
+        if raw is not None:
+            lo, hi, cbv = float(tm._continuous_min), float(tm._continuous_max), float(tm._cb)
+            bad = 0
+            for i in range(0, n, max(1, n // 15)):
+                if raw[i] != raw[i]:
+                    continue
+                ctx.disagreements_checked += 1
+                v = tr['tmle_unit_bounds'].pyeval([float(raw[i]), lo, hi, cbv], None)[0]
+                if abs(v - float(y[i])) > 1e-12:
+                    bad += 1
+            if bad:
+                ctx.broken_ties.append('correspondence: translated tmle_unit_bounds differs from the bounded outcome column on %d rows' % bad)
     # (6) exact Coq evaluation of the plug-in model and the score sums on small cases
     if n <= 70 and len(small_exprs) < (6 if ctx.quick else 40):
         S = [0] * n
